@@ -39,7 +39,7 @@ type c15e3Caller struct {
 	name    string
 	nonblk  bool // a non-blocking OpenStream / OpenUniStream call (never waits)
 	started int  // global sequence number of the moment OpenStream(Sync) was called (0: not yet)
-	waiting int // sequence number of the moment the call was first seen waiting (0: never waited)
+	waiting int  // sequence number of the moment the call was first seen waiting (0: never waited)
 	ret     bool
 	id      protocol.StreamID
 	err     error
@@ -447,7 +447,7 @@ func c15e3Part(t *testing.T) explore.Part {
 			}
 			rep.OutcomesN = int64(len(rep.Outcomes))
 			rep.States = rep.OutcomesN
-			rep.Rule = fmt.Sprintf("every interleaving, at quiescence granularity (each call runs until it returns or durably blocks, decided by synctest.Wait), of the threads of %d scenarios on a real streamsMap: up to 3 OpenStreamSync callers (one cancellable), an event thread (MAX_STREAMS incl. stale values, cancellation, incoming streams), an AcceptStream caller, CloseWithError", len(c15e3Variants))
+			rep.Rule = fmt.Sprintf("every interleaving, at quiescence granularity (each call runs until it returns or durably blocks, decided by synctest.Wait), of the threads of %d scenarios on a real streamsMap: up to 3 OpenStreamSync callers (one cancellable), a thread of up to 2 non-blocking OpenStream calls, an event thread (MAX_STREAMS incl. stale values, cancellation, incoming streams), an AcceptStream caller, CloseWithError", len(c15e3Variants))
 			rep.Bound = "all schedules of every scenario (no preemption inside a call; lock-point preemption is not built)"
 			return rep
 		},
